@@ -704,3 +704,18 @@ def h_periodic(ctx, cm, nmax, unwind):
     ctx.require(conv_ok["l"] or conv_ok["n"], "C19.period_depends_on_n",
                 lambda: {"cm": cm, "period": m, "note": "the rule deciding when to stop writing is not the same for every n"})
     ctx.cover("__nontrivial__")
+
+
+# ---------------------------------------------------------------------------
+# replay of a CrossHair counterexample (second engine)
+
+def h_xh(ctx, fn, args):
+    from . import xh_targets
+    try:
+        ok = getattr(xh_targets, fn)(**args)
+    except PathAbort:
+        raise
+    except Exception:                                       # noqa: BLE001
+        ok = False
+    tag = [t for t in ("C05", "C10", "C13", "C17", "C18") if ctx.is_fatal(t + ".crosshair")]
+    ctx.require(bool(ok), (tag[0] if tag else "X") + ".crosshair", {"function": fn, "args": args})
